@@ -155,7 +155,25 @@ def make_mesh(refdom_name, kind, rng, reorder=True, renum=True, min_quality=0.0)
                'mesh_class': type(m).__name__}
 
 
+LAST_PARENT = {}      # the parent mesh of the last 'adaptive' mesh and the checksum of its arrays before it was derived from
+
+
+def _tagging_op(m, rng):
+    """a random public operation that returns a derived mesh with the same cells"""
+    op = ['with_subdomains', 'with_boundaries', 'with_defaults', 'translated', 'scaled'][int(rng.integers(0, 5))]
+    if op == 'with_subdomains':
+        return m.with_subdomains({'low': lambda x: x[0] < 0.5}), op
+    if op == 'with_boundaries':
+        return m.with_boundaries({'left': lambda x: x[0] < 0.3}), op
+    if op == 'with_defaults' and hasattr(m, 'with_defaults'):
+        return m.with_defaults(), op
+    if op == 'translated':
+        return m.translated(tuple(float(v) for v in np.round(rng.uniform(-1, 1, m.p.shape[0]), 2))), op
+    return m.scaled(tuple(float(v) for v in np.round(rng.uniform(0.5, 2, m.p.shape[0]), 2))), 'scaled'
+
+
 def _adaptive_mesh(refdom_name, rng, reorder, renum, min_quality):
+    import hashlib
     import skfem
     base = ['delaunay', 'structured', 'jiggled'][int(rng.integers(0, 3))]
     p, t = base_mesh(refdom_name, base, rng, min_quality=min_quality)
@@ -166,29 +184,56 @@ def _adaptive_mesh(refdom_name, rng, reorder, renum, min_quality):
     with warnings.catch_warnings():
         warnings.simplefilter('ignore')
         m0 = getattr(skfem, MESH1[refdom_name])(p, t)
+        pre = []
+        for _ in range(int(rng.integers(0, 3))):       # tagging / moving BEFORE the refinement
+            m0, op = _tagging_op(m0, rng)
+            pre.append(op)
+        # the parent is used before it is derived from (connectivity tables built and cached) and again afterwards
+        _ = m0.f2t, m0.t2f, m0.facets
+        chk = hashlib.sha1(np.ascontiguousarray(m0.t).tobytes() + np.ascontiguousarray(m0.p).tobytes()).hexdigest()
+        t_before = m0.t.copy()
         nt = m0.t.shape[1]
         marked = sorted(int(c) for c in rng.choice(nt, size=int(rng.integers(1, max(2, nt // 2 + 1))), replace=False))
-        m = m0.refined(marked)
+        if rng.random() < 0.25 and nt <= 30:
+            m, marked = m0.refined(), 'uniform'
+        else:
+            m = m0.refined(marked)
         ops = []
         for _ in range(int(rng.integers(0, 3))):
-            op = ['uniform', 'translated', 'scaled', 'with_boundaries', 'adaptive'][int(rng.integers(0, 5))]
-            if op == 'uniform' and m.t.shape[1] <= (40 if refdom_name == 'RefTri' else 30):
-                m = m.refined()
-            elif op == 'translated':
-                m = m.translated(tuple(float(v) for v in np.round(rng.uniform(-1, 1, m.p.shape[0]), 2)))
-            elif op == 'scaled':
-                m = m.scaled(tuple(float(v) for v in np.round(rng.uniform(0.5, 2, m.p.shape[0]), 2)))
-            elif op == 'with_boundaries':
-                m = m.with_boundaries({'left': lambda x: x[0] < 0.3})
-            elif op == 'adaptive' and m.t.shape[1] <= 60:
+            if rng.random() < 0.5:
+                m, op = _tagging_op(m, rng)
+            elif rng.random() < 0.5 and m.t.shape[1] <= (40 if refdom_name == 'RefTri' else 30):
+                m, op = m.refined(), 'uniform'
+            elif m.t.shape[1] <= 60:
                 mk = sorted(int(c) for c in rng.choice(m.t.shape[1], size=int(rng.integers(1, 4)), replace=False))
-                m = m.refined(mk)
-                op = f'adaptive{mk}'
+                m, op = m.refined(mk), f'adaptive{mk}'
             else:
                 continue
             ops.append(op)
-    return m, {'refdom': refdom_name, 'kind': 'adaptive', 'base': base, 'p': np.asarray(p).tolist(), 't': np.asarray(t).tolist(),
-               'marked': marked, 'derived_by': ops, 'mesh_class': type(m).__name__}
+    desc = {'refdom': refdom_name, 'kind': 'adaptive', 'base': base, 'p': np.asarray(p).tolist(), 't': np.asarray(t).tolist(),
+            'before_refinement': pre, 'marked': marked, 'derived_by': ops, 'mesh_class': type(m).__name__}
+    LAST_PARENT.clear()
+    LAST_PARENT.update({'mesh': m0, 'checksum': chk, 't_before': t_before, 'desc': dict(desc, kind='adaptive-parent')})
+    return m, desc
+
+
+def check_parent_untouched(report):
+    """deriving a mesh must not change the mesh it was derived from (operand checksum of the parent's p and t)"""
+    import hashlib
+    if not LAST_PARENT:
+        return True
+    m0 = LAST_PARENT['mesh']
+    now = hashlib.sha1(np.ascontiguousarray(m0.t).tobytes() + np.ascontiguousarray(m0.p).tobytes()).hexdigest()
+    if now != LAST_PARENT['checksum']:
+        d = LAST_PARENT['desc']
+        changed = np.nonzero(np.any(m0.t != LAST_PARENT['t_before'], axis=0))[0]
+        report(f'mesh={type(m0).__name__}:parent-mutated-by-refined',
+               f'{type(m0).__name__}.refined({d.get("marked")}) changed the connectivity of the mesh it was called on '
+               f'({len(changed)} cells, first {changed[:3].tolist()}: {LAST_PARENT["t_before"][:, changed[:1]].T.tolist()} -> '
+               f'{m0.t[:, changed[:1]].T.tolist()}); its cached facet tables are stale',
+               dict(d, changed_cells=changed[:10].tolist()))
+        return False
+    return True
 
 
 def check_sorted(mesh, desc, report):
@@ -197,10 +242,11 @@ def check_sorted(mesh, desc, report):
     if type(mesh).__name__ != 'MeshTri1':
         return True
     ok = bool(getattr(mesh, 'sort_t', False)) and bool(np.all(np.diff(mesh.t, axis=0) > 0))
+    desc = dict(desc)
     if not ok:
         bad = np.nonzero(~np.all(np.diff(mesh.t, axis=0) > 0, axis=0))[0]
         report('mesh=MeshTri1:library-produced-mesh-unsorted',
-               f'MeshTri1 produced by refined({desc.get("marked")}) + {desc.get("derived_by")} has sort_t={getattr(mesh, "sort_t", None)} and '
+               f'MeshTri1 produced by {desc.get("before_refinement")} + refined({desc.get("marked")}) + {desc.get("derived_by")} has sort_t={getattr(mesh, "sort_t", None)} and '
                f'{len(bad)} cells whose vertices are not ascending (first: {mesh.t[:, bad[:1]].T.tolist()})',
                dict(desc, unsorted_cells=bad[:10].tolist()))
     return ok
